@@ -957,7 +957,7 @@ def history_run(rep, verbose=False):
 
 # =====================================================================================================
 def run(ctx):
-    ctx.build(FILES)
+    ctx.build_with_translator(FILES)
     rng = ctx.rng
     quick = ctx.tier == 'quick'
     ctx.cov['rule'] = (
